@@ -249,3 +249,20 @@ package client
 //@   requires c != nil && c.Tree != nil
 //@   modifies ghost leavesSeen, heap([]Leaf)
 //@   assert at call (*Tree).WalkSorted#0: [walks-its-own-tree-in-sorted-order C01] arg0 == c.Tree
+
+// A prepared SubscribeRequest (inline proto / proto file of the CLI) becomes a query with the same target, mode,
+// updates_only flag and encoding, one query path per subscription (its index form), and the request itself kept for sending.
+//@ func NewQuery
+//@   props C01 C19 C12
+//@   requires sr != nil ==> (sr.Request != nil ==> payload(sr.Request) != nil)
+//@     && (isa(sr.Request.(*gpb.SubscribeRequest_Subscribe)) && sr.Request.(*gpb.SubscribeRequest_Subscribe).Subscribe != nil ==>
+//@         (forall i int :: 0 <= i && i < len(sr.Request.(*gpb.SubscribeRequest_Subscribe).Subscribe.Subscription) ==> sr.Request.(*gpb.SubscribeRequest_Subscribe).Subscribe.Subscription[i] != nil))
+//@   invariant 0: 0 <= $i && $i <= len($range) && len(q.Queries) == $i && (arr(q.Queries) == 0 || fresh(q.Queries))
+//@     && (forall j int :: 0 <= j && j < $i ==> view(q.Queries[j]) == idxpath($range[j].Path, false))
+//@   ensures [a-request-without-a-subscription-list-or-prefix-is-refused C01] sr == nil || !isa(sr.Request.(*gpb.SubscribeRequest_Subscribe)) ==> res1 != nil
+//@   ensures [query-mirrors-the-request C01] res1 == nil ==> res0.SubReq == sr && res0.Target == sr.Request.(*gpb.SubscribeRequest_Subscribe).Subscribe.Prefix.Target
+//@     && res0.UpdatesOnly == sr.Request.(*gpb.SubscribeRequest_Subscribe).Subscribe.UpdatesOnly && res0.Encoding == sr.Request.(*gpb.SubscribeRequest_Subscribe).Subscribe.Encoding
+//@     && len(res0.Queries) == len(sr.Request.(*gpb.SubscribeRequest_Subscribe).Subscribe.Subscription)
+//@   ensures [mode-mapped C01] res1 == nil ==> (sr.Request.(*gpb.SubscribeRequest_Subscribe).Subscribe.Mode == 1 ==> res0.Type == Once)
+//@     && (sr.Request.(*gpb.SubscribeRequest_Subscribe).Subscribe.Mode == 2 ==> res0.Type == Poll) && (sr.Request.(*gpb.SubscribeRequest_Subscribe).Subscribe.Mode == 0 ==> res0.Type == Stream)
+//@   ensures [one-index-path-per-subscription-in-order C01 C19] res1 == nil ==> (forall j int :: 0 <= j && j < len(res0.Queries) ==> view(res0.Queries[j]) == idxpath(sr.Request.(*gpb.SubscribeRequest_Subscribe).Subscribe.Subscription[j].Path, false))
